@@ -1828,10 +1828,16 @@ class Interp:
                     return inner_fn(el)
             for p_ in itv.parts: self.iterate(p_, fn, e)
             return
-        if isinstance(itv, IterV) and itv.kind in ('option', 'optflat') and not itv.maps:
+        if isinstance(itv, IterV) and itv.kind in ('option', 'optflat') and not any(m_ == 'enumerate' for m_ in itv.maps):
             # Option::iter(): zero or one element;  .flatten(): the elements of the payload when there is one
             import builtins_model
             ov = itv.seq
+            if itv.maps:
+                inner_fn = fn; maps_ = list(itv.maps)
+                def fn(el, inner_fn=inner_fn, maps_=maps_):
+                    for m_ in maps_:
+                        if isinstance(m_, ClosureV): el = self.call_closure(m_, [el], e)
+                    return inner_fn(el)
             def some(p):
                 if itv.kind == 'option': fn(RefV(Cell(p)) if itv.by_ref else p)
                 else: self.iterate(RefV(Cell(p)) if itv.by_ref else p, fn, e)
